@@ -503,7 +503,10 @@ pub fn c05_monotone(before: &Board, after: &Board) -> R {
 // ------------------------------------------------------------------------------------------ C06
 
 pub fn c06_fen(b: &Board, p: &Pos) -> R {
-    let text = format!("{}", b);
+    let text = match crate::exec::guard(|| format!("{}", b)) {
+        Ok(t) => t,
+        Err(e) => return Err(viol("C06", "render/panic", format!("rendering the position {} panicked: {}", p.fen(), e))),
+    };
     let fields: Vec<&str> = text.split(' ').collect();
     if fields.len() != 6 {
         return Err(viol("C06", "wellformed/field_count", format!("{:?}", text)));
